@@ -147,10 +147,16 @@ func C16Handler(cases []C16Case, yield func(string)) http.Handler {
 			store["as-"+hex.EncodeToString(c.DevEUI[:])] = append([]byte(nil), c.ASKEK...)
 		}
 	}
+	return c16HandlerFrom(func(e lorawan.EUI64) (C16Case, bool) { c, ok := byEUI[e]; return c, ok }, store, y)
+}
+
+// c16HandlerFrom builds the handler over a device lookup that is consulted at request time (the
+// operator's device table may change between requests).
+func c16HandlerFrom(lookup func(lorawan.EUI64) (C16Case, bool), store map[string][]byte, y func(string)) http.Handler {
 	h, err := joinserver.NewHandler(joinserver.HandlerConfig{
 		GetDeviceKeysByDevEUIFunc: func(devEUI lorawan.EUI64) (joinserver.DeviceKeys, error) {
 			y("GetDeviceKeys")
-			c, ok := byEUI[devEUI]
+			c, ok := lookup(devEUI)
 			if !ok {
 				return joinserver.DeviceKeys{}, joinserver.ErrDevEUINotFound
 			}
@@ -162,7 +168,7 @@ func C16Handler(cases []C16Case, yield func(string)) http.Handler {
 		},
 		GetASKEKLabelByDevEUIFunc: func(devEUI lorawan.EUI64) (string, error) {
 			y("GetASKEKLabel")
-			if c, ok := byEUI[devEUI]; ok && c.ASKEK != nil {
+			if c, ok := lookup(devEUI); ok && c.ASKEK != nil {
 				return "as-" + hex.EncodeToString(c.DevEUI[:]), nil
 			}
 			return "", nil
@@ -409,6 +415,75 @@ func runC16(r *engine.Run) {
 			})
 			if ok {
 				c.Outcome("many-devices/history-completed")
+			}
+		})
+	}
+
+	// ---- the operator's device table changes between requests: every sequence of <= 4 steps over
+	// {provision D, remove D, request from D (join 1.0 / join 1.1 / rejoin 0), request with a flipped MIC}
+	// through one handler; each answer is judged for the table as it is at that moment
+	{
+		type step struct {
+			name string
+			kind int // 0 provision, 1 remove, 2.. request
+		}
+		steps := []step{{"provision", 0}, {"remove", 1}, {"join-1.0", 2}, {"join-1.1", 3}, {"rejoin-0", 4}, {"join-1.0-bad-mic", 5}}
+		depth := 4
+		var total uint64
+		for l, n := 1, uint64(len(steps)); l <= depth; l, n = l+1, n*uint64(len(steps)) {
+			total += n
+		}
+		r.PartDims("provisioning-history", []string{fmt.Sprintf("sequences of <= %d steps over %d operations", depth, len(steps))}, total, func(c *engine.Case) {
+			i := c.Index
+			l := 1
+			for n := uint64(len(steps)); i >= n; n *= uint64(len(steps)) {
+				i -= n
+				l++
+			}
+			dev := baseCase()
+			known := false
+			h := c16HandlerFrom(func(e lorawan.EUI64) (C16Case, bool) {
+				if known && e == lorawan.EUI64(dev.DevEUI) {
+					return dev, true
+				}
+				return C16Case{}, false
+			}, map[string][]byte{}, func(string) {})
+			var hist []string
+			for k := 0; k < l; k++ {
+				st := steps[i%uint64(len(steps))]
+				i /= uint64(len(steps))
+				hist = append(hist, st.name)
+				switch st.kind {
+				case 0:
+					known = true
+				case 1:
+					known = false
+				default:
+					q := dev
+					q.Known = known
+					q.Nonce = uint16(0x2000 + k)
+					switch st.kind {
+					case 3:
+						q.DL |= 0x80
+					case 4:
+						q.Kind, q.DL = 1, q.DL|0x80
+					case 5:
+						q.MICFlip = 7
+					}
+					c.Eval()
+					var status int
+					var body []byte
+					if pn, site, v := engine.Try(func() { status, body = C16Serve(h, q) }); pn {
+						c.Fail("panic/"+site, fmt.Sprintf("after %v: request panics: %v", hist, v), nil)
+						return
+					}
+					probs, outcome := C16Judge(q, status, body)
+					for _, p := range probs {
+						c.Fail(p[0], fmt.Sprintf("after %v (device known: %v): %s", hist, known, p[1]), nil) // the judge's own keys: a listed finding stays the listed finding
+					}
+					c.NonTrivial()
+					c.Outcome("provisioning-history/" + strings.Split(outcome, "(")[0])
+				}
 			}
 		})
 	}
